@@ -47,6 +47,15 @@ def check_program(prog, cfgs, inputs, cache, out, size=0, driver="C", extra=None
             cnt["compile_" + st] = cnt.get("compile_" + st, 0) + 1
             continue
         p = asm.assemble(text)
+        hard = [m for _ln, m in p.issues if "backward branch" not in m]
+        if hard:
+            # a text the assembler rejects computes nothing (backward branches below v4 are C04's recorded
+            # finding and are executable, so they do not count here)
+            out["violations"].append({
+                "driver": driver, "size": size, "title": "%s: emitted program does not assemble: %s (v%d %s)" % (driver, hard[0], cfg.version, cfg.mode),
+                "recipe": prog, "cfg": cfg.to_json(), "input": inputs[0] if inputs else {}, "teal": text,
+                "features": dict(extra or {}, why="does not assemble")})
+            continue
         skey = p.stream()
         for ii, inp in enumerate(inputs):
             ek = (tm, cfg.mode, ii)
